@@ -631,5 +631,30 @@ pub fn gen_doc(rng: &mut Rng, s: &Schema, cfg: &DocCfg) -> Doc {
         if cfg.custom_directives && s.directives.iter().any(|d| d.name == "tag") { for v in vars.iter_mut() { if rng.chance(1, 10) { v.dirs.push("@tag(name: \"v\")".into()); } } }
         ops.push(Op { kind: kind.to_string(), name, vars, dirs, sel, shorthand: cfg.shorthand && rng.chance(1, 3) });
     }
-    Doc { ops, frags: g.frags, features: g.features }
+    let mut doc = Doc { ops, frags: g.frags, features: g.features };
+    // operations and fragments live in separate name spaces: sometimes give a fragment the name of an operation
+    if !doc.frags.is_empty() && rng.chance(1, 8) {
+        let op_names: Vec<String> = doc.ops.iter().filter_map(|o| o.name.clone()).collect();
+        if !op_names.is_empty() {
+            let new_name = rng.pick(&op_names).clone();
+            let fi = rng.below(doc.frags.len());
+            let old_name = doc.frags[fi].name.clone();
+            if !doc.frags.iter().any(|f| f.name == new_name) {
+                fn rename(sels: &mut Vec<Sel>, old: &str, new: &str) {
+                    for s in sels.iter_mut() {
+                        match s {
+                            Sel::Spread { name, .. } => { if name == old { *name = new.to_string(); } }
+                            Sel::Field { sub: Some(sub), .. } => rename(sub, old, new),
+                            Sel::Inline { sub, .. } => rename(sub, old, new),
+                            _ => {}
+                        }
+                    }
+                }
+                doc.frags[fi].name = new_name.clone();
+                for o in doc.ops.iter_mut() { rename(&mut o.sel, &old_name, &new_name); }
+                for f in doc.frags.iter_mut() { rename(&mut f.sel, &old_name, &new_name); }
+            }
+        }
+    }
+    doc
 }
